@@ -3,7 +3,9 @@
  1. TLC checks spec/Edge/Bloom.tla: the filter abstracted to the set of added items (the only
     sound abstraction), MatchTxAndUpdate with the protocol's update modes over transaction
     templates that form spend chains; invariants / action properties NoFalseNegative, Monotone,
-    WatchedMatches, SpendOfMatchedOutput.  The side-chain tweak is a named deviation.
+    WatchedMatches, SpendOfMatchedOutput for ordinary tweaks; the side-chain tweak (0xffffffff) is the
+    specified action MatchTxSideChain with its own rule SideChainRule (type listed or output pays a
+    program hash of the bit array; no updates).
  2. One behaviour per explored edge (and deeper simulated ones) is run on real filters of every
     size {0,1,8,36000} x hash-function count {0,1,3,50} x tweak, built by LoadFilter, NewFilter
     and TxFilter.Load; one-sided oracle: spec "must match" => the real filter matches.
@@ -18,7 +20,7 @@ META = dict(
          "explored edge is replayed on real bloom.Filter and TxFilter objects for filter sizes {0,1,8,36000} bytes x {0,1,3,50} hash "
          "functions x several tweaks (and NewFilter-built ones): after every step every item the spec holds must match.",
     note="One-sided by nature (a bloom filter may always answer yes); item sets <= 3 explicit additions, 4 transaction "
-         "templates, behaviours <= 5 steps (simulation 7); tweak 0xffffffff is a known deviation (side-chain mode).",
+         "templates, behaviours <= 5 steps (simulation 7); tweak 0xffffffff is the specified side-chain mode with its own rule.",
     technique="TLA+ set abstraction (TLC exhaustive) + per-edge behaviour replay on real filters across the parameter grid",
 )
 
@@ -36,13 +38,13 @@ CHECK_DEADLOCK FALSE
 
 
 def cfg(ops, adds, emit=None, props=True):
-    return CFG % dict(ops=ops, adds=adds, props="PROPERTIES Monotone WatchedMatches SpendOfMatchedOutput" if props else "",
+    return CFG % dict(ops=ops, adds=adds, props="PROPERTIES Monotone WatchedMatches SpendOfMatchedOutput SideChainRule" if props else "",
                       emit=("ACTION_CONSTRAINT " + emit) if emit else "")
 
 
 def strat(b):
     s = b[-1]
-    return "%s/%s/%s/%s" % (s["act"], s.get("mode"), s.get("side"), s.get("why"))
+    return "%s/%s/%s/%s/%s/%s" % (s["act"], s.get("mode"), s.get("side"), s.get("bits"), ",".join(s.get("listed") or []), s.get("why"))
 
 
 def absorb(chk, recs, label):
@@ -71,7 +73,7 @@ def run(chk):
         chk.add_tlc(r, "exhaustive Bloom.tla (ops<=6, adds<=3)")
 
     # 2. exhaustive check + one behaviour per edge -> real filters
-    ops, adds = (5, 3) if thorough else (4, 3)
+    ops, adds = (5, 3) if thorough else (4, 2)
     r = vf.tlc("Edge", "Bloom", "x.cfg", cfg_text=cfg(ops, adds, emit="Emit"), workers=8, timeout=1500,
                jvm=("-XX:ParallelGCThreads=4",))
     vf.tlc_ok(r, "Bloom exhaustive + extraction")
@@ -101,7 +103,6 @@ def run(chk):
     bad = json.loads(json.dumps(cand[len(cand) // 2]))
     ghost = ["ph", 3] if bad[-1]["added"][0] != ["ph", 3] else ["ph", 2]
     bad[-1]["added"].append(ghost)
-    bad[-1]["want"].append(ghost)
     p1 = os.path.join(vf.scratch(), "bl-bad.jsonl")
     vf.write_json_lines(p1, [bad])
     recs, _ = vf.run_driver(binary, ["replay", p1, tier])
@@ -112,9 +113,11 @@ def run(chk):
         "one-sided oracle: only 'must match' is checked (false positives are legitimate; unforced matches are counted in "
         "the evidence)",
         "items: 3 program hashes (standard / multisig / other prefix), 4 transaction templates with spend chains, 5 outpoints; "
-        "<= 3 explicit additions, <= %d steps exhaustively (replayed: <= %d), 7 by simulation" % ((6, 5) if thorough else (4, 4)),
+        "<= %d explicit additions, <= %d steps exhaustively (replayed: <= %d), 7 by simulation" % ((3, 6, 5) if thorough else (2, 4, 4)),
         "the real MatchTxAndUpdate ignores the update flags and always adds the outpoint (a superset of every mode), which the "
         "one-sided oracle admits",
-        "tweak 0xffffffff (side-chain mode) is modelled as the named deviation MatchTxSideChain and reported as a known finding",
+        "tweak 0xffffffff is the protocol's side-chain mode (specified action MatchTxSideChain): there the real verdict is compared "
+        "exactly with the rule evaluated on the real filter's own Matches() (type listed, or an output's program hash matches "
+        "a non-empty bit array) and the bit array must stay unchanged; type lists: none / the templates' type / another type",
     ]
     return chk.finish(exhaustive=False)
